@@ -51,8 +51,12 @@ def _default(info):
         return None
 
     def vi(x):
+        if not hasattr(x, "value"):
+            # not a ValueInfo: the schema no longer holds an unconverted
+            # default here; describe what is there instead of failing
+            return ["$not-a-valueinfo", type(x).__name__, value(x)]
         pos = getattr(x, "position", None)
-        return [x.value, list(pos) if pos else None]
+        return [value(x.value), list(pos) if pos else None]
     if isinstance(d, dict):
         out = []
         for k, v in d.items():
